@@ -355,6 +355,35 @@ Proof.
   - split; [apply all_okb; vm_compute; reflexivity|]. split; vm_compute; reflexivity.
 Qed.
 
+(* non-vacuity of window_ok as it reads since find's look-back is clamped at datetime.min (/repo bd49e45; C01:
+   lookback_clamped): /R/{year}/{month}/{day}/, P = 1 day.  t = 0001-01-02 12:00 lies between P and 2 P after
+   datetime.min (formerly outside window_ok: find(t - P, ...) raised OverflowError in its own look-back): the window
+   0001-01-01 12:00 -- 0001-01-03 12:00 is inside datetime, the hypotheses hold, the file of 0001-01-01 that ends
+   exactly at the window start is returned when the covering one is excluded.  One microsecond before
+   datetime.min + P the window itself leaves datetime: find_closest's own subtraction raises (TErr), window_ok fails. *)
+Example nonvacuous_window_near_min :
+  let d := fun y m dd h => ymdh y m dd h in
+  let lay := [F.CPat [F.FYear]; F.CPat [F.FMonth]; F.CPat [F.FDay]] in
+  let mk := fun i a b x => F.mkfile i a b a [] x in
+  let fs := fun x1 => [mk 0 (d 1 1 1 10) (d 1 1 1 12) false; mk 1 (d 1 1 2 11) (d 1 1 2 13) x1;
+                       mk 2 (d 1 1 3 12) (d 1 1 3 13) false] in
+  let t := d 1 1 2 12 in
+  tree_hyps lay (fs false) /\ window_ok lay t /\ F.lookback lay < t < 2 * F.lookback lay /\
+  F.dir_start lay (fst (window lay t)) = 0 /\
+  tree_search lay (fs false) [] [] [] t = TFile 1 /\
+  tree_search lay (fs true) [] [] [] t = TFile 0 /\
+  window_ok lay us_day /\ tree_search lay (fs true) [] [] [] us_day = TFile 0 /\
+  window_okb lay (us_day - 1) = false /\ tree_search lay (fs false) [] [] [] (us_day - 1) = TErr F.OverflowErr.
+Proof.
+  cbv zeta.
+  split; [apply Proofs.C16_tree.tree_hyps_decided; vm_compute; reflexivity|].
+  split; [apply window_okb_iff; vm_compute; reflexivity|].
+  split; [vm_compute; split; reflexivity|].
+  do 3 (split; [vm_compute; reflexivity|]).
+  split; [apply window_okb_iff; vm_compute; reflexivity|].
+  repeat split; vm_compute; reflexivity.
+Qed.
+
 (* non-vacuity: a template with temporal sub-directories (P = 31 days), overlapping files, a gap with a tie, a
    far-away file; the hypotheses hold; the model takes the short cut, avoids the excluded / filtered-out file,
    picks the nearer end in the gap, accepts both files of a tie and rejects a farther one, and reports absence
